@@ -85,8 +85,19 @@ impl Executor for BashScriptExecutor {
             .run("script", &testcase, context)
             .map_err(|err| ExecutionError::from_execute(err, None, None))?;
         let skip_document_code = testcase.config.get_skip_document_code();
+
+        // a test case that ended in the skip code skips the document, whatever
+        // became of the script afterwards (it runs on: a later test case may
+        // have timed out or killed the shell)
+        let (finished, skipping) =
+            finished_testcases(&salt, (&output.stdout).into(), skip_document_code);
+        if let Some(index) = skipping {
+            return Err(ExecutionError::Skipped(index));
+        }
         match output.exit_code {
-            ExitStatus::Code(code) if code == skip_document_code => {
+            // the script was left early (`exit <skip code>`): the test case that
+            // did it has printed no divider
+            ExitStatus::Code(code) if code == skip_document_code && finished < testcases.len() => {
                 return Err(ExecutionError::Skipped(0));
             }
             ExitStatus::Timeout(_) => {
@@ -345,6 +356,25 @@ where
         }
     }
     Ok(())
+}
+
+/// The number of test cases that printed their divider, and the first of them
+/// that ended in the given exit code
+fn finished_testcases(salt: &str, output: &[u8], exit_code: i32) -> (usize, Option<usize>) {
+    let mut finished = 0;
+    let mut first = None;
+    for line in output.split_at_newline() {
+        if let Ok(DividerSearch::Found {
+            exit_code: found, ..
+        }) = parse_salted_divider_bytes(line, salt)
+        {
+            if found == exit_code && first.is_none() {
+                first = Some(finished);
+            }
+            finished += 1;
+        }
+    }
+    (finished, first)
 }
 
 /// Create a new divider that separated outputs of multiple executions
